@@ -242,6 +242,7 @@ func cmdRun(args []string) int {
 	knownPath := fs.String("known", filepath.Join(verifDir, "known_findings.txt"), "known findings file")
 	noNative := fs.Bool("no-native", false, "skip native replay")
 	verbose := fs.Bool("v", false, "verbose")
+	onlyCfg := fs.String("config", "", "run only configurations whose rendering contains this (development)")
 	xcheck := fs.Int("xcheck", -1, "solver differential: worker scripts per harness config replayed on z3-new and cvc5 (-1: 0 quick, 3 thorough)")
 	xcap := fs.Int("xcheck-cap", 120, "solver differential: seconds per replayed script")
 	fs.Parse(args)
@@ -333,6 +334,9 @@ func cmdRun(args []string) int {
 			cfgs = []map[string]int64{{}}
 		}
 		for _, cfg := range cfgs {
+			if *onlyCfg != "" && !strings.Contains(cfgString(cfg), *onlyCfg) {
+				continue
+			}
 			tp := hs.ParamsQuick
 			if *tier == "thorough" {
 				tp = hs.ParamsThorough
